@@ -213,6 +213,10 @@ PROP = Prop(
     P, level="exploration", rule=RULE,
     layers=[Layer("multiplexing", stall_is_violation=True, strategy=scenarios, execute=execute, budget={"quick": 2500, "thorough": 120000}),
             Layer("pool-histories", strategy=pool_history_scenarios, execute=execute_pool_history, budget={"quick": 1600, "thorough": 60000}),
+            # the general concurrent histories (faults, one cancelled caller, peer actions) restricted to HTTP/2 kinds and judged for C12: a caller
+            # that nobody cancelled must not end with a cancellation that belonged to a sibling
+            Layer("disturbed-histories", strategy=lambda: __import__("vf.props.conc", fromlist=["scenarios"]).scenarios(kinds=["direct-h2", "prior-h2", "tunnel-h2", "socks-auth-tls-h2"]),
+                  execute=__import__("vf.props.conc", fromlist=["make_execute"]).make_execute("C12"), budget={"quick": 1200, "thorough": 40000}),
             __import__("vf.props.real", fromlist=["concurrent_layer"]).concurrent_layer("C12", {"quick": 320, "thorough": 12000})],
     assumptions=["the peer's own stream accounting (vf/peers/h2.py) is the reference for the bound; the limit in force is the last value the client has ACKed",
                  "MAX_CONCURRENT_STREAMS=0 is not generated (grey zone: the client cannot both obey it and make progress)",
